@@ -8,10 +8,15 @@ def sh(cmd, cwd=None, timeout=7200):
     p = subprocess.run(cmd, shell=True, cwd=cwd, env=ENV, capture_output=True, text=True, timeout=timeout)
     return p.returncode, p.stdout + p.stderr
 only = sys.argv[1:]
+start_from = ''
+if only and only[0] == '--from':
+    start_from, only = only[1], only[2:]
 for mf in sorted(glob.glob('/verif/seeded/*/meta.json')):
     d = os.path.dirname(mf)
     m = json.load(open(mf))
     if only and not any(o in m['name'] for o in only):
+        continue
+    if start_from and os.path.basename(d) < start_from:
         continue
     rc, st = sh("git -C /repo status --porcelain")
     if st.strip():
